@@ -1,10 +1,13 @@
 #!/bin/bash
-# tools/try_patch.sh [-R] <patch> <prop> [prop...] : apply patch to /repo, run quick checks, restore /repo
+# tools/try_patch.sh [-R] <patch> <prop> [prop...]
+# Applies the patch to a scratch worktree of /repo HEAD (never to /repo itself), runs the quick checks
+# against it (VERIF_REPO), prints their verdict lines, removes the worktree.
 rev=""; if [ "$1" = "-R" ]; then rev="-R"; shift; fi
-patch=$1; shift
-git -C /repo apply $rev "$patch" || { echo "patch does not apply"; exit 3; }
+patch=$(readlink -f "$1"); shift
+wt=/tmp/trypatch_$$; git -C /repo worktree prune; git -C /repo worktree add --detach $wt HEAD >/dev/null 2>&1 || { echo "cannot create worktree"; exit 3; }
+trap 'git -C /repo worktree remove --force '$wt' >/dev/null 2>&1' EXIT
+git -C $wt apply $rev "$patch" || { echo "patch does not apply"; exit 3; }
 for p in "$@"; do
-  out=$(/verif/vcheck $p quick 2>&1); code=$?
-  echo "== $p exit=$code"; echo "$out" | grep -E "^VIOLATION|^KNOWN|^INCONCLUSIVE|counterexample|^OK|BROKEN" | head -8
+  out=$(VERIF_REPO=$wt /verif/vcheck $p quick 2>&1); code=$?
+  echo "== $p exit=$code"; echo "$out" | grep -E "^VIOLATION|^KNOWN|^INCONCLUSIVE|counterexample|^OK|BROKEN" | cut -c1-260 | head -8
 done
-git -C /repo checkout -- . 
